@@ -13,11 +13,19 @@ import (
 
 func Remove(path string) error {
 	loghub.ErrorLogger.Logf(loghub.INFO, "remove path: %s", path)
+	if VerifOn {
+		Verif("fs.pre", "remove", path)
+		defer Verif("fs.post", "remove", path)
+	}
 	return os.Remove(path)
 }
 
 func Rename(path, newpath string) error {
 	loghub.ErrorLogger.Logf(loghub.INFO, "rename path: %s to %s", path, newpath)
+	if VerifOn {
+		Verif("fs.pre", "rename", newpath)
+		defer Verif("fs.post", "rename", newpath)
+	}
 	return os.Rename(path, newpath)
 }
 
